@@ -434,6 +434,14 @@ func init() {
 		return repeat(n, func() string {
 			return safely(func() string {
 				p := &gabi.ProofD{}
+				if prev := o["decode_after"]; prev != nil {
+					// the message is decoded into a variable that held (and verified) another message
+					// before, as a server loop reusing its request object does
+					if err := json.Unmarshal(treeToGabiJSON(prev), p); err != nil {
+						return "decode-error-first"
+					}
+					p.Verify(pk, ctx, nonce, o.boolean("issig"))
+				}
 				if o.boolean("direct") {
 					p = treeToProofD(o["proof"])
 				} else if err := json.Unmarshal(raw, p); err != nil {
